@@ -116,8 +116,15 @@ namespace DFS
     bool select_drive(const DFS::SurfaceSelector&, AbstractDrive **pp, std::string& error) const;
     std::unique_ptr<DFS::FileSystem> mount_fs(const DFS::SurfaceSelector&, std::string& error) const;
     std::optional<VolumeMountResult> mount(const DFS::VolumeSelector& vol, std::string& error) const;
+    // Remember the name of an attached image file, so that commands
+    // which create files can avoid writing over it.
+    void note_image_file(const std::string& name);
+    // True if path names an existing file which is one of the
+    // attached image files (by whatever name).
+    bool is_image_file(const std::string& path) const;
 
   private:
+    std::vector<std::string> image_files_;
     std::map<drive_number, std::optional<DriveConfig>> drives_;
     std::map<drive_number, std::unique_ptr<AbstractDrive>> caches_;
   };
